@@ -3,7 +3,8 @@
 import json, os, sys
 HERE = os.path.dirname(os.path.dirname(os.path.abspath(__file__)))
 
-TECH = 'bounded symbolic execution of rustc MIR (state merging) + z3 SMT queries; native replay of counterexamples'
+TECH = ('bounded symbolic execution of rustc MIR (state merging) + z3 SMT queries over whole functions and, for loops, over single iterations from '
+        'arbitrary loop-head states (inductive step lemmas); native replay of counterexamples')
 TRUST = ('rustc nightly MIR faithfully represents the stable build; mirsym MIR parser/executor; std models in mirsym/models.py '
          '(differential-tested by conformance/); z3; the oracle in props/<id>.py')
 
@@ -95,7 +96,7 @@ CLAIMED.update({
              'substring (all arities, symbolic numeric arguments) and range with a byte-accurate string model (UTF-8 widths per char), plus the cross-command '
              'relation substring(s,0,indexof(s,t)) + t is a prefix of s. Out-of-domain input must give the error result; every panic site is an obligation.',
         note='Bounds: arguments <= 6 (quick) / 9 (thorough) chars over all Unicode, numeric arguments <= 3 chars, range span <= 4. For one-line wrappers around '
-             'std the model and the oracle coincide: plumbing and unit consistency are what is checked. n/a parts: calc, less_than/greater_than (f64), '
+             'std the model and the oracle coincide: plumbing and unit consistency are what is checked. n/a parts: calc, less_than/greater_than beyond plain integer literals (f64), '
              'uppercase/lowercase, concat (script), replace/split. ' + TRUST,
         ref='4/C16'),
 })
@@ -168,6 +169,37 @@ CLAIMED.update({
              'replay of counterexamples against the real duck binary. argv <= 2 arguments; lint <= 2/3 instructions, names <= 3/5 chars, ASCII + 2 case-less chars. ' + TRUST,
         ref='4/C20'),
 })
+
+# lemma jobs added in round 2 (DESIGN.md 8.6-8.10): per-iteration / per-operation steps decided from an arbitrary state
+LEMMAS = {
+    'C01': 'Also: per-iteration lemmas of the token scanner (argument, name and first-token configurations), of the argument-list loop, find_label, '
+           'find_output_and_command, parse_command_line and parse_line from arbitrary loop-head states with callees as arbitrary results; their composition over '
+           'a line of any length is an induction argued in DESIGN.md 8.6 (capacity: buffer 24/64, accumulated text 12/32).',
+    'C08': 'Also: per-iteration lemmas for the error returns of the token scanner (kind and line of the caller), find_label (EmptyLabel), the line structure '
+           'functions and the line loop parse_lines (one instruction per line, line number k+1, errors passed on) from arbitrary states (DESIGN.md 8.6).',
+    'C02': 'Also: per-character lemmas of expand_by_wrapper (phases between segments / after $ or % / inside {name / after backslash / end, single and spread), '
+           'the re-split configuration of the scanner and the word-list loop, from arbitrary states: templates, names and values of any length up to the '
+           'capacity 24/64 (DESIGN.md 8.6).',
+    'C03': 'Also: one fetch/execute iteration of run_instructions from an arbitrary state (instruction index, variables, label table, shared state; callees as '
+           'arbitrary results), run_instruction, run_on_error_instruction and the label-table loop of create_runtime as lemmas: programs and runs of any length by '
+           'induction over the iterations (DESIGN.md 8.7).',
+    'C13': 'Also: the step lemma of run_instructions with the halt flag as a monotone function of time sampled by the loads (DESIGN.md 8.7).',
+    'C06': 'Also: per-token lemmas of eval_condition_for_slice from an arbitrary evaluator state (START / AT / AND / OR / GROUP(k)) with the recursive group '
+           'evaluation as an arbitrary result: statements of any length and nesting depth by induction (DESIGN.md 8.8).',
+    'C11': 'Also: every operation kind once from an arbitrary variable map and an arbitrary scope stack of depth 0-2, stack compared entry by entry afterwards '
+           '(histories of any length by induction, DESIGN.md 8.9).',
+    'C15': 'Also: set / remove / lookups once from an arbitrary registry over the universe satisfying the stated invariant, invariant re-established (DESIGN.md 8.9).',
+    'C10': 'Also: every operation once from an arbitrary error-protocol state with the state compared field by field afterwards, and the error-related '
+           'obligations of the runner step lemma (DESIGN.md 8.7, 8.9).',
+    'C14': 'Also: lemmas for the include argument loop (25 includer/path pairs, arbitrary collected list and parse_file result), directive dispatch, parse_file, '
+           'parse_text_with_source_file and parse_lines: include trees of any shape by induction on depth (DESIGN.md 8.10).',
+    'C16': 'Also: less_than / greater_than on plain integer literals (partial f64 model: integer literals exact, strings with a character no number literal has '
+           'are errors; fractions, exponents, inf, nan outside).',
+}
+for _k, _t in LEMMAS.items():
+    CLAIMED[_k]['text'] += ' ' + _t
+    CLAIMED[_k]['note'] += (' Lemma jobs: the induction composing the decided steps is argued, not decided; a lemma job whose loop carries state it does not '
+                             'quantify over, or whose counterexample is not confirmed natively, reports itself as skipped and the bounded jobs decide alone.')
 
 NOT_APPLICABLE = {
     'C17': 'round-trips live in third-party crates (base64, serde_json, java-properties, std fmt/from_str_radix) that are not in the encoded MIR; '
